@@ -36,7 +36,8 @@ def scenario(c, rnd):
         o2 = dict(origin)
         if p['shape'] in ('reval304', 'reval304c'):
             o2['on_cond'] = {'status': 304, 'hdrs': [('Cache-Control', 'max-age=1000'), ('X-Verif-Multi', '1'), ('X-Verif-Gen', '2'), ('X-Verif-Multi', '2'), ('Cache-Control', 'public')]
-                             + ([('ETag', ETAG[p['etag']])] if p['etag'] else []) + [('X-Verif-Multi', '3')],
+                             + ([('ETag', ETAG[p['etag']])] if p['etag'] else []) + [('X-Verif-Multi', '3')]
+                             + ([('Content-Length', '5')] if rnd.random() < 0.3 else []),   # a 304 must not change the stored Content-Length (RFC 9111 3.2)
                              'abs': dict(etag=p['etag'], gen=2, multi=[1, 2, 3]),
                              'require': {'etag': ETAG.get(p['etag']), 'lm': LM}}
         else:
